@@ -29,7 +29,7 @@ N = {'quick': 40, 'thorough': 2500}
 
 CORRUPTIONS = ['none', 'bad-tag-first', 'bad-tag-later', 'lead-in-cut', 'metadata-cut', 'unknown-type', 'dimension-2', 'absurd-string-length',
                'same-on-unseen', 'type-change', 'random-metadata-byte', 'garbage']
-INDEX_KINDS = ['none', 'matching', 'other-file', 'bad-tag', 'truncated']
+INDEX_KINDS = ['none', 'matching', 'other-file', 'bad-tag', 'truncated', 'empty']
 
 
 def gen_cases(tier, seed):
@@ -110,6 +110,8 @@ def index_bytes(kind, idx, rng, other_idx):
         return b'TDSx' + idx[4:]
     if kind == 'truncated':
         return idx[:rng.randrange(4, max(5, len(idx)))]
+    if kind == 'empty':
+        return b''          # a zero-length index file (left behind by an interrupted writer)
 
 
 OWN_FDS = set()     # descriptors of file objects the harness itself handed to the library
@@ -159,7 +161,7 @@ def run_case(case, ctx):
                 continue     # an index beside the file is only discovered for paths
             if own in ('pathlib', 'fileobj', 'rawfileobj') and (case['s'] + len(ik) + len(own)) % 3:
                 continue     # sampled: these two ownership kinds triple the work otherwise
-            for api in ('read', 'read_metadata', 'open-close', 'with', 'open-history'):
+            for api in ('read', 'read_metadata', 'open-close', 'with', 'open-history', 'ctor-keep-open'):
                 ctx.evaluation()
                 info = {'corrupt': case['corrupt'], 'index': ik, 'own': own, 'api': api, 'case': case}
                 fdmon.take_opens()
@@ -353,6 +355,17 @@ def one_call(ctx, TdmsFile, api, own, path, bad, info, fresh_vals, rng, ik):
                 for c in g.channels():
                     c[:]
             tf.close()
+        elif api == 'ctor-keep-open':
+            # the constructor's documented keep_open flag: all data is read and the file stays open until close() / the with-block ends
+            if rng.random() < 0.5:
+                tf = TdmsFile(arg, raw_timestamps=True, keep_open=True)
+                for g in tf.groups():
+                    for c in g.channels()[:1]:
+                        c[:]
+                tf.close()
+            else:
+                with TdmsFile(arg, raw_timestamps=True, keep_open=True) as tf:
+                    pass
         elif api == 'with':
             with TdmsFile.open(arg, raw_timestamps=True) as tf:
                 for g in tf.groups():
